@@ -87,6 +87,7 @@ FIXED = [
     "fixed: property=C06 73d131d two-chest balanced loader (`total = {c0.output, c1.output}; avg = total / -2; d_i = {c_i.output, avg}; ins_i.enable = any(d_i) > 0`): the colours of a source in two transitively related merges were assigned in string order of the merge ids (`wire_merge_10` < `wire_merge_7`), the direct chest wire took the colour of the average, all chests and inserters became one network",
     "fixed: property=C06 7043904 `belt.enable = s > 0; Bundle r = belt.output; lamp.enable = any(r) > 5; Signal u = s * 2;`: the operand wire into the belt and the wire reading its contents shared one colour on the belt's single connector, so the lamp counted s (and u's combinator saw the belt contents)",
     "fixed: property=C10 0d0dfca `func f(Signal p, Signal c) { Signal q = p * 2; Signal r = (p > 3 && c > 1) : 1; return q + r; }` called with a literal: constant propagation folded q and dropped the constant p although the two-row decider (likewise a wire merge, memory write or entity condition) still read it; optimised result 10, unoptimised 11",
+    "fixed: property=C20 f2407a4 `Bundle b = {a, k} * 2;` (any bundle operation whose left operand is a bundle literal or bundle variable): the each-combinator computing b was described as `[file] b (*)` without the declaration line",
     "fixed: property=C01 832242e `(c : k) && x` / `(c : k) || (d : j)` with constants other than 0/1 took the boolean shortcut (x*y, (x+y)>0) and yielded k or 0 instead of 1",
     "fixed: property=C01 7701d37 a comparison with an integer literal on the left (`3 < a`) was emitted as `signal-0 < a`",
 ]
